@@ -98,6 +98,7 @@ def main():
     ap.add_argument('--only', default='')
     ap.add_argument('--nproc', type=int, default=int(os.environ.get('VERIF_NPROC', '16')))
     ap.add_argument('--keep', action='store_true')
+    ap.add_argument('--max-violations', type=int, default=2)
     ap.add_argument('--verbose', '-v', action='store_true')
     ap.add_argument('--no-evidence', action='store_true')
     args = ap.parse_args()
@@ -129,7 +130,10 @@ def main():
     random.Random(seed).shuffle(jobs)
     for j in jobs:
         j.setdefault('opts', {})
-    res = runner.run_jobs(ssa, jobs, args.nproc)
+    tmo = int(os.environ.get('VERIF_QUERY_TIMEOUT_MS', '20000' if tier == 'quick' else '120000'))
+    for j in jobs:
+        j['opts'].setdefault('timeout_ms', tmo)
+    gen = runner.run_jobs(ssa, jobs, args.nproc)
 
     known = [k for k in load_known() if k['property'] == args.prop]
     replay_dir = os.path.join(VERIF, 'replays', args.prop)
@@ -147,7 +151,14 @@ def main():
     queries = 0
     reach_ok = 0
     replays_done = 0
-    for r in sorted(res, key=lambda r: (r['job']['harness'], json.dumps(r['job']['params']))):
+    njobs_done = 0
+    stopped_early = False
+    for r in gen:
+        njobs_done += 1
+        if len(violations) >= args.max_violations:
+            stopped_early = True
+            gen.close()
+            break
         job = r['job']
         jid = '%s%s' % (job['harness'], tuple(job['params']))
         if r.get('error'):
@@ -187,6 +198,9 @@ def main():
                 path = os.path.join(replay_dir, '%s-%s.json' % (job['harness'], name))
                 json.dump(rec, open(path, 'w'), indent=1)
                 replays_done += 1
+                if len(violations) >= args.max_violations:
+                    os.remove(path)
+                    continue
                 failed, out = native_replay(scratch, job['pkg'], path)
                 if failed:
                     desc = '%s %s %s %s' % (job['harness'], x['kind'], x['label'], x['pos'])
@@ -214,6 +228,8 @@ def main():
         print('--- native replay output ---')
         print(out)
         print('VIOLATION property=%s replay=%s' % (args.prop, path))
+    if stopped_early:
+        print('stopped after %d reproduced violations (%d of %d jobs examined)' % (len(violations), njobs_done, len(jobs)))
     print('%s tier=%s jobs=%d obligations=%d verdicts=%s inconclusive=%d errors=%d wall=%.1fs solver=%.1fs' % (
         args.prop, tier, len(jobs), nobl, counts, len(inconclusive), len(errors), wall, solver_s))
     if not args.no_evidence and not args.only:
